@@ -320,7 +320,7 @@ class workq:
                 # killed while blocked: a job handed over in the meantime goes back
                 if waiter in self._waiters:
                     self._waiters.remove(waiter)
-                if ev.successful():
+                if ev.successful() and not ev.value.done:
                     self.pushjob(ev.value)
                 raise
             if j.done:
